@@ -2,11 +2,14 @@ SPECIFICATION Spec
 CONSTANTS
   MaxDocs = 4
   MaxFaults = 2
-  DeadWriterStaysDead = FALSE
+  DeadWriterStaysDead = TRUE
   KillUpdaterOnSaveFail = TRUE
   PipeCap = 2
-  KillDropsReceiver = TRUE
+  KillDropsReceiver = FALSE
 INVARIANT OkCommitIsComplete
 INVARIANT LastCommitIntact
+INVARIANT DiskIsSomeCommit
+INVARIANT RegistersMatchDisk
+INVARIANT NoStuckProducer
 CONSTRAINT Bound
 CHECK_DEADLOCK FALSE
